@@ -338,6 +338,7 @@ void C18Exec::prepare(C18Outcome &out) {
             }
             ctx.begin(t, ++g_opIdCounter, fillSeedOf(cs.caseSeed, t, (int)i), planFor(op, s.tailResolved));
             Ambient amb0, amb1;
+            const long hidden0 = ambientReads().hiddenStatic;
             // "alone" = as the first call of a thread without history (fresh thread-local storage, errno 0)
             schedRunOnFreshThread([&]() {
                 heapBind(&ctx);
@@ -362,6 +363,19 @@ void C18Exec::prepare(C18Outcome &out) {
                     v->set("case", caseWith({{0, 0}}));
                     out.violations.push_back(v);
                 }
+            }
+            if (ambientReads().hiddenStatic > hidden0 && out.violations.size() < 8) {
+                // e.g. strtok: its saved position is ONE object for the whole process, so the call overwrites the
+                // state of a tokenising loop of the caller (or of any other thread) - no schedule is needed to see it
+                JP v = mkViolation(
+                    "I6-ambient-state", op, t, (int)i,
+                    std::string("the call used ") + ambientReads().lastHiddenStatic +
+                        "(), a C library facility that keeps its state in one static object shared by all threads "
+                        "of the process (documented MT-Unsafe): it overwrites that state for the caller and for "
+                        "every other thread (executed alone)",
+                    "mt-unsafe-libc");
+                v->set("case", caseWith({{0, 0}}));
+                out.violations.push_back(v);
             }
             ambientRestore(true);
             if (s.expected.status != CALL_RETURNED)
